@@ -56,6 +56,17 @@ Summary(I, s, d, default, allowPerms) ==
 
 Decision(I, s, d, default) == IF Summary(I, s, d, default, FALSE).allowed THEN "allow" ELSE "deny"
 
+\* state/intention.go IntentionTopology / intentionTopologyTxn (ServiceTopology, IntentionUpstreams): among the
+\* registered candidate services, those whose pair with the target "may connect".  The pair is decided like
+\* every other pair - by the single most specific matching intention, else the default - with
+\* AllowPermissions = TRUE: an intention with permissions counts as "may connect" here (which requests pass is
+\* decided per request by the proxy).  Upstreams: target is the (local) source; downstreams: target is the
+\* destination and the candidates are local sources.  The target itself is never listed.
+Topology(I, target, downstreams, default, Cands) ==
+  {c \in Cands \ {target} :
+     IF downstreams THEN Summary(I, [name |-> c, peer |-> NOPEER], target, default, TRUE).allowed
+     ELSE Summary(I, [name |-> target, peer |-> NOPEER], c, default, TRUE).allowed}
+
 \* state/intention.go IntentionMatch / IntentionMatchOne (legacyIntentionMatchTxn: intentionMatchGetParams;
 \* config entries: readSourceIntentionsFromConfigEntriesTxn / readDestinationIntentionsFromConfigEntriesTxn
 \* over getIntentionPrecedenceMatchServiceNames).  A source query names a NOPEER service (no peer field).
